@@ -562,10 +562,13 @@ type C19Ctx struct {
 	Transport string `json:"transport"` // channel | http | websocket
 	Op        string `json:"op"`        // read | write
 	Deadline  bool   `json:"deadline"`
+	// Others (http read): this many other readers are already parked in Read on the same logical connection (two
+	// ClientConns dialled to one peer share it)
+	Others int `json:"others,omitempty"`
 }
 
 func genC19Ctx(t *rapid.T) C19Ctx {
-	return C19Ctx{Transport: rapid.SampledFrom([]string{"channel", "http", "websocket"}).Draw(t, "transport"), Op: rapid.SampledFrom([]string{"read", "write"}).Draw(t, "op"), Deadline: rapid.Bool().Draw(t, "deadline")}
+	return C19Ctx{Transport: rapid.SampledFrom([]string{"channel", "http", "websocket"}).Draw(t, "transport"), Op: rapid.SampledFrom([]string{"read", "write"}).Draw(t, "op"), Deadline: rapid.Bool().Draw(t, "deadline"), Others: rapid.SampledFrom([]int{0, 0, 1, 2}).Draw(t, "others")}
 }
 
 func execC19Ctx(t *testing.T, c C19Ctx) (v Verdict) {
@@ -614,6 +617,13 @@ func execC19Ctx(t *testing.T, c C19Ctx) (v Verdict) {
 				goh := goat.NewGoatOverHttp(func(string, goat.RpcReadWriter) {}, func(s string) (string, error) { return s, nil }, goat.WithClock(clockwork.NewFakeClock()))
 				defer goh.Cancel()
 				rw := goh.NewConnection("nowhere")
+				octx, ocancel := context.WithCancel(context.Background())
+				defer ocancel()
+				for i := 0; i < c.Others; i++ {
+					orw := goh.NewConnection("nowhere") // the same logical connection
+					go func() { _, _ = orw.Read(octx) }()
+				}
+				kit.Settle()
 				ctx, cancel := context.WithCancel(context.Background())
 				if c.Deadline {
 					ctx, cancel = context.WithTimeout(context.Background(), time.Second)
